@@ -437,12 +437,15 @@ func (r *runnableStep) RunSchema() map[string]*schema.PropertySchema {
 func (r *runnableStep) Start(_ map[string]any, runID string, stageChangeHandler step.StageChangeHandler) (step.RunningStep, error) {
 	ctx, cancel := context.WithCancel(context.Background())
 	rs := &runningStep{
-		runID:              runID,
-		ctx:                ctx,
-		cancel:             cancel,
-		lock:               &sync.Mutex{},
-		currentStage:       StageIDEnabling,
-		currentState:       step.RunningStepStateStarting,
+		runID:        runID,
+		ctx:          ctx,
+		cancel:       cancel,
+		lock:         &sync.Mutex{},
+		currentStage: StageIDEnabling,
+		// The first stage waits for its input from the very beginning. Reporting "starting" until the
+		// run goroutine gets to say so would hide the step from the workflow's deadlock check, which is
+		// only made when some stage completes and does nothing while a step is starting.
+		currentState:       step.RunningStepStateWaitingForInput,
 		executeInput:       make(chan executeInput, 1),
 		enabledInput:       make(chan bool, 1),
 		workflow:           r.workflow,
